@@ -19,7 +19,7 @@ CONSTANTS MaxEvents
 
 \* candidate module files (as component sequences)
 CandFiles == { <<"m.lua">>, <<"a", "m.lua">>, <<"b", "m.lua">>, <<"a", "b", "m.lua">>,
-               <<"m", "init.lua">>, <<"a", "init.lua">>, <<"m.so">>,
+               <<"m", "init.lua">>, <<"a", "init.lua">>, <<"a", "m", "init.lua">>, <<"m.so">>,
                <<"xa", "m.lua">> }     \* a directory whose name merely ends with "a": no match for module a.m
 
 \* module names used in require(...), as component sequences
